@@ -31,6 +31,10 @@ pub struct BuildCfg {
     /// 2 `env` for the first half then `envs` for the rest, 3 two `envs` calls
     #[serde(default)]
     pub env_style: u8,
+    /// the build targets aarch64 instead of the default x86_64 (only without an own buildpack:
+    /// nothing is compiled then)
+    #[serde(default)]
+    pub target_aarch64: bool,
 }
 
 #[derive(Clone, Debug, PartialEq, Serialize, Deserialize)]
@@ -183,10 +187,13 @@ fn gen_build(r: &mut Rng, depth: u32) -> BuildNode {
         pack_fails,
         own_buildpack: None,
         env_style: r.below(4) as u8,
+        target_aarch64: false,
     };
     let mut cfg = cfg;
+    cfg.target_aarch64 = r.chance(1, 4);
     if r.chance(1, 6) {
         cfg.own_buildpack = Some((r.usize(cfg.buildpacks.len() + 1), r.bool()));
+        cfg.target_aarch64 = false;
     }
     let mut steps = Vec::new();
     let n = r.usize(4);
